@@ -1,12 +1,12 @@
 package rules
 
 import (
-	"strconv"
-	"regexp"
 	"fmt"
 	"go/token"
 	"os"
+	"regexp"
 	"sort"
+	"strconv"
 	"strings"
 
 	"golang.org/x/tools/go/ssa"
@@ -202,7 +202,7 @@ func runC03(c *Ctx) {
 				return
 			}
 			ln, ok := h.Len(subject[fn])
-			good := ok && (h.ProvesLE(ln.AddK(-(s.lo-1))) || h.ProvesLE(lincon.K(s.hi+1).Sub(ln)))
+			good := ok && (h.ProvesLE(ln.AddK(-(s.lo - 1))) || h.ProvesLE(lincon.K(s.hi+1).Sub(ln)))
 			h.Assert("reject-window", sprintf("*LengthError => len < %d or len > %d", s.lo, s.hi), good)
 		}
 	}
